@@ -1672,6 +1672,8 @@ class FnAnalysis(Analysis):
                 return Val(taint, "any", elem=recv.elem)
             if mname in ("append", "extend", "add", "update", "insert", "put_nowait"):
                 k = self.key_of(e.func.value)
+                if k and any_taint and k not in st.env:
+                    st.env[k] = recv                  # (first mutation of an attribute that this function never assigned)
                 if k and any_taint and k in st.env:
                     el = st.env[k].elem
                     new_el = a0 if el is None else join_val(el, a0)
